@@ -268,6 +268,12 @@ class AcqProblem:
         }
         self.secondary = {"EIpu-e1": self.cost, "EIpu-e0.5": self.cost, "CEI-feas": self.con,
                           "CEI-nofeas": self.coninf}
+        # the active metric is selected by name: it need not be the first key of the dictionary of output models
+        self.heads["EIpu-e1-active-second"] = EIpuAcquisitionFunction({K: self.cost, A: self.active}, active_metric=A,
+                                                                      exponent_cost=1.0)
+        self.heads["CEI-feas-active-second"] = CEIAcquisitionFunction({C: self.con, A: self.active}, active_metric=A)
+        self.secondary["EIpu-e1-active-second"] = self.cost
+        self.secondary["CEI-feas-active-second"] = self.con
         if cfg["npend"]:
             self.heads["CEI-mixed"] = CEIAcquisitionFunction({A: self.active, CONSTRAINT_MIX_NAME: self.conmix}, active_metric=A)
             self.secondary["CEI-mixed"] = self.conmix
